@@ -9,7 +9,7 @@ CHECKS = {
     "C08": ("exploration", "runtime monitoring: differential oracle — for random type systems over every implemented representation strategy and generated inhabitants, the read-out monitor compares the type-level view and the representation view of nodes built through both builders with a reference model of the strategy relation; codec round trips through the representation builder compared byte-for-byte and value-for-value",
             "Held on the type systems and values observed for the reflection binding (inferred Go types); generated code runs the same monitor inside C13. Sampling of type systems (non-cyclic, depth <= 4) and values.",
             "Trusted: lib/ref/schema (strategy relation written from the IPLD Schema specification), lib/obs. Tuple structs only with trailing absents.", "DESIGN.md §2 C08"),
-    "C09": ("exploration", "runtime monitoring: differential oracle — conforming values and random local mutations of them (type level and representation level, directly and through dag-cbor(relaxed)/dag-json) are fed to typed builders; accept/reject, error-not-panic and the accepted value are compared with a reference conformance decision; a coverage-distilled corpus of DAG-CBOR inputs for twelve fixed type systems is replayed against the same reference",
+    "C09": ("exploration", "runtime monitoring: differential oracle — conforming values and random local mutations of them (type level and representation level, directly and through dag-cbor(relaxed)/dag-json) are fed to typed builders call by call and, for lists and maps, once more as one foreign node through a single AssignNode; accept/reject, error-not-panic and the accepted value are compared with a reference conformance decision; a coverage-distilled corpus of DAG-CBOR inputs for twelve fixed type systems is replayed against the same reference",
             "Held on the inputs observed for the reflection binding; generated code runs the same monitor inside C13. Sampling.",
             "Trusted: lib/ref/schema ParseType/ParseRepr.", "DESIGN.md §2 C09"),
     "C13": ("exploration", "runtime monitoring: per batch the generator in the working tree is run on freshly drawn type systems (every struct, map, list and union strategy it supports, optional/nullable fields, complex keys), the output is compiled with go build into a driver linked with the monitors, and the driver feeds the same conforming and mutated inputs, at type and representation level, to the generated prototypes and to bindnode prototypes of the same schema in lock-step: accept/reject, panic, type-level read-out, representation read-out and dag-cbor/dag-json bytes are compared; the C08 view monitor and the C09 conformance monitor run on the generated engine against the reference model as well, as do the C01 typed read-back (incl. whole-value AssignNode from another implementation) and the C12 rejected-key monitors; a probe compiles the packages generated for structs of 63, 64 and 70 fields",
@@ -51,7 +51,7 @@ CHECKS = {
     "C11": ("exploration", "runtime monitoring: snapshot-and-reread monitor — every tracked node (generic, decoded, loaded, matched, transformed, and typed bindnode nodes with inferred and user-supplied Go types) is read out in full right after production and again after each step of a generated history of later library operations (builder reset/reuse, assign-and-extend incl. builders of the node's own prototype that are then used further, transforms, walks, subset matches, further loads and decodes; a storage that serves every block out of one buffer it reuses); the checked-in generated code is a producer too",
             "Held on the histories observed: no tracked node from any producer changed its read-out, and no accessor disagreed with itself on a second read. Sampling of producers and histories.",
             "Trusted: lib/obs read-out monitor. Callers writing into slices they own are excluded as the property states.", "DESIGN.md §2 C11"),
-    "C05": ("exploration", "runtime monitoring: histories of store/compute/load operations checked online against a sequential model (write-once map) with reference links (stdlib digests, hand-built CIDs) over reference block bytes; bursts of concurrent ComputeLink calls; a probe with unregistered codecs and hash functions",
+    "C05": ("exploration", "runtime monitoring: histories of store/compute/load operations checked online against a sequential model (write-once map) with reference links (stdlib digests, hand-built CIDs) over reference block bytes; bursts of concurrent ComputeLink calls; probes with unregistered codecs and hash functions and with values the chosen codec cannot write (error, no link, no block)",
             "Held on the histories observed: every Store/ComputeLink returned the reference link, storage held exactly the reference bytes, every load form returned the stored value and bytes, results handed out earlier did not change later. Sampling of histories and configurations.",
             "Trusted: lib/ref/link, lib/ref/cbor, stdlib crypto; for cbor/json/dag-json the expected bytes come from the codec's own direct Encode.", "DESIGN.md §2 C05"),
     "C06": ("fault_enumeration", "runtime monitoring with fault injection at the storage boundary: per stored block, exhaustive bit flips, truncations, read-error offsets, extensions, substitutions, chunkings, last-bytes-with-EOF reads and extended blocks arriving in pieces; writer/encoder failures (iterators and scalar accessors of a faulty node) on the store side with a recording committer; open and commit errors; loads into a prototype whose builder refuses the block; large blocks faulted at buffer boundaries",
